@@ -31,6 +31,8 @@ def main():
     for d in sorted(glob.glob(os.path.join(VERIF, 'seeded', '*', 'patch.diff'))):
         name = os.path.basename(os.path.dirname(d))
         meta = json.load(open(os.path.join(os.path.dirname(d), 'meta.json')))
+        if meta.get('kind') == 'refactoring':
+            continue
         variants.append((name, d, meta.get('reverse', False), meta))
     only = sys.argv[1:]
     if only:
